@@ -431,7 +431,7 @@ func TestC04Engine(t *testing.T) {
 	rec := ev.New("C04", "engine")
 	defer rec.Flush()
 	rapid.Check(t, func(t *rapid.T) {
-		c := searchgen.Gen(searchgen.GenOpts{MoreAssociates: true}).Draw(t, "corpus")
+		c := searchgen.Gen(searchgen.GenOpts{MoreAssociates: true, DeleteOnlyRegular: true}).Draw(t, "corpus")
 		k := rapid.SampledFrom([]int{1, 2, 2, 3, 3, 4}).Draw(t, "shards")
 		asg := assignment(t, &c, k)
 		ep := &stor.Epoch{}
@@ -536,7 +536,7 @@ func TestC04Nodes(t *testing.T) {
 	rec := ev.New("C04", "nodes")
 	defer rec.Flush()
 	rapid.Check(t, func(t *rapid.T) {
-		c := searchgen.Gen(searchgen.GenOpts{MoreAssociates: true}).Draw(t, "corpus")
+		c := searchgen.Gen(searchgen.GenOpts{MoreAssociates: true, DeleteOnlyRegular: true}).Draw(t, "corpus")
 		k := rapid.SampledFrom([]int{2, 2, 3, 3, 4}).Draw(t, "nodes")
 		asg := assignment(t, &c, k)
 		ep := &stor.Epoch{}
@@ -601,7 +601,7 @@ func TestC04MergePure(t *testing.T) {
 	rec := ev.New("C04", "merge-pure")
 	defer rec.Flush()
 	rapid.Check(t, func(t *rapid.T) {
-		c := searchgen.Gen(searchgen.GenOpts{MoreAssociates: true}).Draw(t, "corpus")
+		c := searchgen.Gen(searchgen.GenOpts{MoreAssociates: true, DeleteOnlyRegular: true}).Draw(t, "corpus")
 		view := c.View()
 		k := rapid.SampledFrom([]int{2, 2, 3, 3, 4}).Draw(t, "nodes")
 		asg := assignment(t, &c, k)
